@@ -1,9 +1,9 @@
 /-
   Lemmas.ReaderStable — "what a reader accepts does not depend on what follows".
 
-  `StableR R p q`: whenever `p` succeeds on a buffer it consumed a prefix `pre` of it, and — provided the rest
-  it left is NON-EMPTY — `q` succeeds on `pre` followed by ANY continuation, consuming exactly `pre`, with a
-  result related by `R`.  (The side condition is essential: `leb128ReadU32` accepts an integer that is cut
+  `StableR R p q`: whenever `p` succeeds on a buffer, `q` succeeds on the same buffer with the same rest and an
+  `R`-related result; `p` consumed a prefix `pre` of the buffer, and — provided the rest it left is NON-EMPTY —
+  `q` succeeds on `pre` followed by ANY continuation, consuming exactly `pre`, with a result related by `R`.  (The side condition is essential: `leb128ReadU32` accepts an integer that is cut
   short by the end of the file, so a reader that stops exactly at the end of the buffer may behave
   differently when more bytes follow.)  The notion is closed under `bind`, `if`, `match`, `vec`, `iter`,
   `sliced`, and holds for all primitives of Model.Buffer and Model.Reader; it is the key to
@@ -18,9 +18,16 @@ open W2c2Verif.Gen
 
 def StableR {α β : Type} (R : α → β → Prop) (p : P α) (q : P β) : Prop :=
   ∀ bs a rest, p bs = .ok (a, rest) →
+    (∃ b, q bs = .ok (b, rest) ∧ R a b) ∧
     ∃ pre, bs = pre ++ rest ∧ (rest ≠ [] → ∀ rest', ∃ b, q (pre ++ rest') = .ok (b, rest') ∧ R a b)
 
 def Stable {α : Type} (p : P α) : Prop := StableR Eq p p
+
+/-- For `q = p`, `R = Eq` the same-input clause is trivial. -/
+theorem stable_of_local {α : Type} {p : P α}
+    (h : ∀ bs a rest, p bs = .ok (a, rest) →
+      ∃ pre, bs = pre ++ rest ∧ (rest ≠ [] → ∀ rest', ∃ b, p (pre ++ rest') = .ok (b, rest') ∧ a = b)) :
+    Stable p := fun bs a rest hp => ⟨⟨a, hp, rfl⟩, h bs a rest hp⟩
 
 /-! ### monad structure -/
 
@@ -45,7 +52,7 @@ theorem stable_pure {α β : Type} {R : α → β → Prop} {a : α} {b : β} (h
   intro bs a' rest hp
   rw [pure_run] at hp
   cases hp
-  exact ⟨[], rfl, fun _ rest' => ⟨b, rfl, h⟩⟩
+  exact ⟨⟨b, rfl, h⟩, [], rfl, fun _ rest' => ⟨b, rfl, h⟩⟩
 
 theorem stable_fail {α β : Type} {R : α → β → Prop} (e : Nat) (q : P β) : StableR R (P.fail e : P α) q := by
   intro bs a rest hp; cases hp
@@ -56,19 +63,18 @@ theorem stable_undefined {α β : Type} {R : α → β → Prop} (u : UB) (q : P
 
 theorem stable_bind {α β α' β' : Type} {R : α → α' → Prop} {S : β → β' → Prop}
     {p : P α} {q : P α'} {f : α → P β} {g : α' → P β'}
-    (hp : StableR R p q) (htot : ∀ a, ∃ a', R a a') (hf : ∀ a a', R a a' → StableR S (f a) (g a')) :
+    (hp : StableR R p q) (hf : ∀ a a', R a a' → StableR S (f a) (g a')) :
     StableR S (p >>= f) (q >>= g) := by
   intro bs b rest h
   obtain ⟨a, mid, h1, h2⟩ := bind_ok h
-  obtain ⟨pre1, e1, k1⟩ := hp bs a mid h1
-  obtain ⟨a0, hR0⟩ := htot a
-  obtain ⟨pre2, e2, _⟩ := hf a a0 hR0 mid b rest h2
-  refine ⟨pre1 ++ pre2, by rw [e1, e2, List.append_assoc], fun hne rest' => ?_⟩
+  obtain ⟨⟨a0, hq0, hR0⟩, pre1, e1, k1⟩ := hp bs a mid h1
+  obtain ⟨⟨b0, hg0, hS0⟩, pre2, e2, _⟩ := hf a a0 hR0 mid b rest h2
+  refine ⟨⟨b0, by rw [bind_eq_of_ok hq0]; exact hg0, hS0⟩, pre1 ++ pre2, by rw [e1, e2, List.append_assoc], fun hne rest' => ?_⟩
   have hmid : mid ≠ [] := by
     rw [e2]; intro hc
     exact hne (List.append_eq_nil_iff.1 hc).2
   obtain ⟨a', hq, hR⟩ := k1 hmid (pre2 ++ rest')
-  obtain ⟨pre2', e2', k2⟩ := hf a a' hR mid b rest h2
+  obtain ⟨_, pre2', e2', k2⟩ := hf a a' hR mid b rest h2
   have hpre : pre2' = pre2 := by
     have : pre2' ++ rest = pre2 ++ rest := by rw [← e2', ← e2]
     exact List.append_cancel_right this
@@ -79,7 +85,7 @@ theorem stable_bind {α β α' β' : Type} {R : α → α' → Prop} {S : β →
 
 theorem stable_bind_eq {α β : Type} {p : P α} {f : α → P β}
     (hp : Stable p) (hf : ∀ a, Stable (f a)) : Stable (p >>= f) :=
-  stable_bind hp (fun a => ⟨a, rfl⟩) (fun a a' h => by subst h; exact hf a)
+  stable_bind hp (fun a a' h => by subst h; exact hf a)
 
 theorem stable_ite {α β : Type} {R : α → β → Prop} {c : Prop} [Decidable c] {p p' : P α} {q q' : P β}
     (h1 : c → StableR R p q) (h2 : ¬ c → StableR R p' q') :
@@ -91,6 +97,7 @@ theorem stable_ite {α β : Type} {R : α → β → Prop} {c : Prop} [Decidable
 /-! ### primitives -/
 
 theorem stable_byte (e : Nat) : Stable (byte e) := by
+  apply stable_of_local
   intro bs a rest h
   cases bs with
   | nil => cases h
@@ -100,6 +107,7 @@ theorem stable_byte (e : Nat) : Stable (byte e) := by
     exact ⟨[a], rfl, fun _ rest' => ⟨a, rfl, rfl⟩⟩
 
 theorem stable_fixed (n e : Nat) : Stable (fixed n e) := by
+  apply stable_of_local
   intro bs a rest h
   simp only [fixed] at h
   split at h
@@ -174,6 +182,7 @@ theorem i64_run (strict : Bool) (e : Nat) (bs : Bytes) :
       else .ok ((Leb.readI64 bs).value, (Leb.readI64 bs).rest) := rfl
 
 theorem stable_u32 (e : Nat) : Stable (u32 e) := by
+  apply stable_of_local
   intro bs a rest h
   obtain ⟨pre, e1, k⟩ := readU_local Reader.leb128ReadU32 bs
   rw [u32_run] at h
@@ -187,6 +196,7 @@ theorem stable_u32 (e : Nat) : Stable (u32 e) := by
     exact if_neg hcnt
 
 theorem stable_i32 (e : Nat) : Stable (i32 e) := by
+  apply stable_of_local
   intro bs a rest h
   obtain ⟨pre, e1, k⟩ := readS_local Reader.leb128ReadI32 bs
   rw [i32_run] at h
@@ -200,6 +210,7 @@ theorem stable_i32 (e : Nat) : Stable (i32 e) := by
     exact if_neg hcnt
 
 theorem stable_i64 (strict : Bool) (e : Nat) : Stable (i64 strict e) := by
+  apply stable_of_local
   intro bs a rest h
   obtain ⟨pre, e1, k⟩ := readS_local Reader.leb128ReadI64 bs
   rw [i64_run] at h
@@ -219,6 +230,7 @@ theorem stable_i64 (strict : Bool) (e : Nat) : Stable (i64 strict e) := by
       rw [if_neg hub]
 
 theorem stable_takeExact (g : Bytes → Bytes) (e length : Nat) : Stable (takeExact g e length) := by
+  apply stable_of_local
   intro bs a rest h
   have hrun : ∀ xs : Bytes, takeExact g e length xs =
       if xs.length < length then .err e else .ok (g (xs.take length), xs.drop length) := fun _ => rfl
@@ -250,7 +262,7 @@ theorem stable_vec {α : Type} {p : P α} (hp : Stable p) : ∀ n, Stable (vec p
     exact stable_bind_eq hp (fun a => stable_bind_eq ih (fun as => stable_pure rfl))
 
 theorem stable_iter {σ τ : Type} {R : σ → τ → Prop} {f : σ → P σ} {g : τ → P τ}
-    (htot : ∀ s, ∃ t, R s t) (hf : ∀ s t, R s t → StableR R (f s) (g t)) :
+    (hf : ∀ s t, R s t → StableR R (f s) (g t)) :
     ∀ n s t, R s t → StableR R (iter f n s) (iter g n t) := by
   intro n
   induction n with
@@ -258,7 +270,7 @@ theorem stable_iter {σ τ : Type} {R : σ → τ → Prop} {f : σ → P σ} {g
   | succ n ih =>
     intro s t h
     show StableR R (f s >>= fun s' => iter f n s') (g t >>= fun t' => iter g n t')
-    exact stable_bind (hf s t h) htot (fun s' t' h' => ih s' t' h')
+    exact stable_bind (hf s t h) (fun s' t' h' => ih s' t' h')
 
 theorem sliced_run (p : P Unit) (bs : Bytes) :
     sliced p bs = match p bs with
@@ -267,6 +279,7 @@ theorem sliced_run (p : P Unit) (bs : Bytes) :
       | .ub u => .ub u := rfl
 
 theorem stable_sliced {p : P Unit} (hp : Stable p) : Stable (sliced p) := by
+  apply stable_of_local
   intro bs a rest h
   rw [sliced_run] at h
   cases hpr : p bs with
@@ -274,7 +287,7 @@ theorem stable_sliced {p : P Unit} (hp : Stable p) : Stable (sliced p) := by
     obtain ⟨u, r⟩ := x
     rw [hpr] at h
     cases h
-    obtain ⟨pre, e1, k⟩ := hp bs () rest hpr
+    obtain ⟨_, pre, e1, k⟩ := hp bs () rest hpr
     have hlen : bs.length - rest.length = pre.length := by rw [e1, List.length_append]; omega
     refine ⟨pre, e1, fun hne rest' => ⟨_, ?_, rfl⟩⟩
     obtain ⟨u, hq, _⟩ := k hne rest'
@@ -288,5 +301,16 @@ theorem stable_sliced {p : P Unit} (hp : Stable p) : Stable (sliced p) := by
     rw [h1, h2]
   | err c => rw [hpr] at h; cases h
   | ub u => rw [hpr] at h; cases h
+
+theorem stable_pure_eq {α : Type} (a : α) : Stable (pure a : P α) := stable_pure rfl
+theorem stable_fail_eq {α : Type} (e : Nat) : Stable (P.fail e : P α) := stable_fail e _
+theorem stable_undefined_eq {α : Type} (u : UB) : Stable (P.undefined u : P α) := stable_undefined u _
+theorem stable_ite_eq {α : Type} {c : Prop} [Decidable c] {p p' : P α}
+    (h1 : c → Stable p) (h2 : ¬ c → Stable p') : Stable (if c then p else p') := stable_ite h1 h2
+theorem stable_of_eq {α : Type} {p : P α} (h : StableR Eq p p) : Stable p := h
+theorem stable_to_eq {α : Type} {p : P α} (h : Stable p) : StableR Eq p p := h
+
+/-! From here on stability is used through the lemmas above only. -/
+attribute [irreducible] Stable StableR
 
 end W2c2Verif.Lemmas.Reader
